@@ -8,7 +8,7 @@ import tempfile
 from .tla import run_tlc, MachineryError
 
 
-def tlc_obs(module, cfg, cases, chunk=20000, workers=16, env=None, timeout=3600, var="i"):
+def tlc_obs(module, cfg, cases, chunk=20000, workers=16, env=None, timeout=3600, var="i", jvm=()):
     """Returns (failures, stats): failures = list of (invariant, case_index0); stats = dict(states, generated)."""
     failures = []
     states = gen = 0
@@ -22,7 +22,7 @@ def tlc_obs(module, cfg, cases, chunk=20000, workers=16, env=None, timeout=3600,
             e = {"OBS_FILE": path}
             if env:
                 e.update(env)
-            r = run_tlc(module, cfg, workers=workers, env=e, timeout=timeout, cont=True)
+            r = run_tlc(module, cfg, workers=workers, env=e, timeout=timeout, cont=True, jvm=jvm)
             if r.distinct != len(part):
                 raise MachineryError("%s: TLC saw %d cases, expected %d\n%s" % (module, r.distinct, len(part),
                                                                                   r.stdout[-2000:]))
